@@ -14,9 +14,9 @@ import (
 // WireMsg is a generated well-formed client message.
 type WireMsg struct {
 	Label string
-	Doc   JArr               // the JSON document
-	Event *mocrelay.Event    // EVENT / AUTH
-	SubID string             // REQ / COUNT / CLOSE
+	Doc   JArr                  // the JSON document
+	Event *mocrelay.Event       // EVENT / AUTH
+	SubID string                // REQ / COUNT / CLOSE
 	Fs    []*mocrelay.ReqFilter // REQ / COUNT
 	// where the event / filter objects sit inside Doc (for corruptions)
 	EventIdx   int
